@@ -33,7 +33,18 @@ def main():
     ok, log = coqrun.make(targets, timeout=3000, jobs=16)
     print(log[-3000:])
     if not ok:
-        rc = 1
+        # something does not build: it only fails the setup when a claimed property needs it
+        needed = []
+        for m in pkgutil.iter_modules(props_pkg.__path__):
+            mod = importlib.import_module("harness.props." + m.name)
+            if not getattr(mod, "DISABLED", None):
+                needed += list(mod.MODEL_TARGETS) + list(getattr(mod, "PROOF_TARGETS", []))
+        ok2, log2 = coqrun.make(sorted(set(needed)), timeout=3000, jobs=16)
+        print(log2[-3000:])
+        if not ok2:
+            rc = 1
+        else:
+            print("setup: only unclaimed (work in progress) files failed to build", file=sys.stderr)
     return rc
 
 
